@@ -21,7 +21,9 @@ RM(i, hs, on, pay, data) ==
      outcome |-> IF i = 2 THEN "err" ELSE "ok"]
 Choice == HSets \X Outcomes \X {"raw", "t2"}
 TablesOfLen(n) == {[i \in 1..n |-> RM(i, c[i][1], c[i][2], c[i][3], "none")] : c \in [1..n -> Choice]}
-AllTables == UNION {TablesOfLen(n) : n \in 1..MaxM}
+(* three declarations over the two handler names, raw payload: enough to have a declaration shadowed by a non-adjacent one *)
+Triples == {[i \in 1..3 |-> RM(i, <<hs[i]>>, on[i], "raw", "none")] : hs \in [1..3 -> HNames], on \in [1..3 -> Outcomes]}
+AllTables == UNION {TablesOfLen(n) : n \in 1..MaxM} \cup Triples
 
 TableSeq == TLCEval(SetToSeq(AllTables))
 TableProg(i) == [id |-> "T" \o ToString(i), family |-> "tables", methods |-> TableSeq[i]]
